@@ -1,15 +1,34 @@
 /-
   C13 -- generated, smoothed and initial plates satisfy their documented shape guarantees.
 
-  Only the property theorems.  Model: `Model/Prep.lean`, `Model/PrepShipped.lean` (validated against /repo by
-  `harness/c13.py`); helper lemmas: `Lemmas/Prep*.lean`.
+  CLAUSE MAP (property text -> theorem).  Inner theorems are about `_generate_plates` / `_smooth_plates` on the screen the public
+  wrapper builds from the unobserved rows; the `C13_wrapped_*` theorems state the same clause for the public entry point the driver
+  executes (`Generator.wrapped` / `Smoother.wrapped`), on the unobserved rows of the result (`C13_wrapped_transfer` is the bridge).
 
-  Reading guide.  The public `generate_plates` / `smooth_plates` wrappers hand the inner operation the screen built from
-  the unobserved rows (`build s.ctrl s.arity (unobservedRows s)`) and put the observed rows back behind its result;
-  `C13_wrapper_unobserved_part` states exactly that.  The shape theorems below are therefore stated for an arbitrary
-  screen `u` with `build c a rows = .ok u` -- every screen the wrappers can pass -- and an arbitrary choice log for which the
-  operation returns.  `plateSize rows p` = number of rows carrying plate label `p`; `distinctPlates rows σ` = the distinct
-  plate labels on the rows of sample `σ`.
+   1. "the sample-segregating ... generators produce unobserved plates that each contain a single sample and, for the former, at most
+       the configured number of experiments"   -> C13_segregating_single_sample_and_size, C13_wrapped_segregating
+   2. "... and pairwise generators ... single sample"          -> C13_pairwise_single_sample, C13_wrapped_pairwise
+   3. "the sparse-cover initial plate observes at least one experiment of every sample and of every treatment and leaves everything
+       else in one unobserved plate"           -> C13_cover (+ C13_cover_terminates: the greedy loop makes progress)
+   4. "the combination filter keeps exactly the experiments all of whose treatments occur in some full combination" -> C13_combo_filter
+   5. "Fixed-size and optimal-size smoothing leave only unobserved plates of one common size, the optimal size being one that retains
+       the most experiments"                   -> C13_fixed_size, C13_optimal_size, C13_wrapped_fixed_size, C13_wrapped_optimal_size
+   6. "the per-sample minimum smoother leaves no sample with fewer unobserved plates than configured"
+                                               -> C13_min_plates_per_sample, C13_min_plates_per_sample_ensemble, C13_wrapped_min_plates
+   7. "Merge smoothers only merge plates of the same sample"   -> C13_merge_same_sample, C13_wrapped_merge_same_sample
+   8. "min-merging stops exactly when the two smallest unobserved plates of a sample together exceed the configured size"
+                                               -> C13_mergemin_stops_exactly, C13_wrapped_mergemin_stops
+   9. "each top-bottom iteration halves, rounding up, the number of unobserved plates of every sample"
+                                               -> C13_topbottom_halves (n iterations = halve^[n]; n = 1 is the single iteration),
+                                                  C13_wrapped_topbottom_halves
+   quantifier "whenever they return ... all parameter values and generator states" -> hypotheses `... = .ok nu` over every choice log
+   end to end (CLI)                            -> Props/C11Pipeline.lean: Prepare_initial_plate_covers, Prepare_unobserved_plates_single_sample
+                                                  (every smoother, the ensemble included)
+   regression witnesses                        -> C13_segregating_old_violates / _new_separates, C13_nplate_old_violates / _new_keeps
+
+   harness-only: numpy's generator laws (`permutation`, `choice`, `heappop` contracts checked on the recorded log; which of several
+   equally frequent anchors `argsort` returns), numpy's fixed-width truncation of "unobserved_plate" in a `<U13` array (modelled as
+   observed), container fidelity of `np.unique` / `array_split` / boolean masks, aliasing of `Plate.merge` with the caller's screen.
 -/
 import Batchie.Lemmas.PrepOps
 import Batchie.Lemmas.PrepExamples
@@ -190,8 +209,123 @@ theorem C13_topbottom_halves (c : Name) (a : Nat) (rows : List Row) (u nu : Scre
     (distinctPlates (rowsOf nu) σ).length = halve^[n.toNat] (distinctPlates rows σ).length :=
   mergeTopBottom_halves_rows hu h σ hσ
 
+/-! ### the same clauses for the public entry points `generate_plates` / `smooth_plates` -/
+
+/-- **Transfer.** Any statement `P rows result` proved for the inner operation on the screen built from the unobserved rows holds
+    for the public wrapper between the unobserved rows of its input and of its result (`P [] []` covers "nothing is unobserved":
+    the wrapper then returns the input). -/
+theorem C13_wrapped_transfer (op : Generator ⊕ Smoother) (s out : Screen)
+    (h : (match op with | .inl g => g.wrapped s | .inr sm => sm.wrapped s) = .ok out)
+    (P : List Row → List Row → Prop) (h0 : unobservedRows s = [] → P [] [])
+    (hP : ∀ u nu, build s.ctrl s.arity (unobservedRows s) = .ok u →
+      (match op with | .inl g => g.run u | .inr sm => sm.run u) = .ok nu → P (unobservedRows s) (rowsOf nu)) :
+    P (unobservedRows s) (unobservedRows out) := by
+  by_cases hne : unobservedRows s = []
+  · have hout : unobservedRows out = [] := by
+      cases op with
+      | inl g => rcases wrap_ok' h with ⟨_, rfl⟩ | ⟨u, nu, hu, hnu, hrows⟩
+                 · exact hne
+                 · have B := build_ok hu
+                   have := (generator_facts g hu unobserved_mask hnu).1.length_eq
+                   rw [hne] at this
+                   have hnil : rowsOf nu = [] := by simpa using this
+                   rw [(assemble_observed (generator_facts g hu unobserved_mask hnu).2 hrows).2, hnil]
+      | inr sm => rcases wrap_ok' h with ⟨_, rfl⟩ | ⟨u, nu, hu, hnu, hrows⟩
+                  · exact hne
+                  · have := (smoother_facts sm hu unobserved_mask hnu).1.length_le
+                    rw [hne] at this
+                    have hnil : rowsOf nu = [] := by simpa using this
+                    rw [(assemble_observed (smoother_facts sm hu unobserved_mask hnu).2 hrows).2, hnil]
+    rw [hne, hout]; exact h0 hne
+  · obtain ⟨u, nu, hu, hnu, e, _⟩ := C13_wrapper_unobserved_part op s out h hne
+    rw [e]; exact hP u nu hu hnu
+
+theorem C13_wrapped_segregating (mx : Int) (perms : List (List Nat)) (s out : Screen)
+    (h : (Generator.segregating mx perms).wrapped s = .ok out) :
+    (∀ r1 ∈ unobservedRows out, ∀ r2 ∈ unobservedRows out, r1.plate = r2.plate → r1.sample = r2.sample) ∧
+    (∀ p : Name, p ∈ (unobservedRows out).map (·.plate) → (plateSize (unobservedRows out) p : Int) ≤ mx) :=
+  C13_wrapped_transfer (.inl (.segregating mx perms)) s out h
+    (fun _ res => (∀ r1 ∈ res, ∀ r2 ∈ res, r1.plate = r2.plate → r1.sample = r2.sample) ∧
+      (∀ p : Name, p ∈ res.map (·.plate) → (plateSize res p : Int) ≤ mx))
+    (fun _ => ⟨fun _ h1 => (by cases h1), fun _ hp => (by cases hp)⟩)
+    (fun u nu hu hnu => let t := genSegregating_shape hu hnu; ⟨t.1, t.2.1⟩)
+
+theorem C13_wrapped_pairwise (sub anc : Int) (anchor : List Int) (perms : List (List Int)) (assign : List (List Name)) (s out : Screen)
+    (h : (Generator.pairwise sub anc anchor perms assign).wrapped s = .ok out) :
+    ∀ r1 ∈ unobservedRows out, ∀ r2 ∈ unobservedRows out, r1.plate = r2.plate → r1.sample = r2.sample :=
+  C13_wrapped_transfer (.inl (.pairwise sub anc anchor perms assign)) s out h
+    (fun _ res => ∀ r1 ∈ res, ∀ r2 ∈ res, r1.plate = r2.plate → r1.sample = r2.sample)
+    (fun _ _ h1 => (by cases h1)) (fun _ _ _ hnu => genPairwise_single_sample hnu)
+
+theorem C13_wrapped_fixed_size (k : Int) (choices : List (List Nat)) (s out : Screen)
+    (h : (Smoother.fixedSize k choices).wrapped s = .ok out) (p : Name) :
+    plateSize (unobservedRows out) p = if plateSize (unobservedRows s) p < k.toNat then 0 else k.toNat :=
+  C13_wrapped_transfer (.inr (.fixedSize k choices)) s out h
+    (fun rows res => plateSize res p = if plateSize rows p < k.toNat then 0 else k.toNat)
+    (fun _ => by
+      simp only [plateSize, List.filter_nil, List.length_nil]
+      by_cases hk : 0 < k.toNat
+      · simp [hk]
+      · simp only [hk, if_false]; omega)
+    (fun _ _ hu hnu => fixedSize_shape hu hnu p)
+
+theorem C13_wrapped_optimal_size (choices : List (List Nat)) (s out : Screen)
+    (h : (Smoother.optimalSize choices).wrapped s = .ok out) (hne : unobservedRows s ≠ []) :
+    ∃ k, k ∈ plateSizes (unobservedRows s) ∧
+      (∀ p : Name, plateSize (unobservedRows out) p = if plateSize (unobservedRows s) p < k then 0 else k) ∧
+      (∀ t : Nat, retained (plateSizes (unobservedRows s)) t ≤ retained (plateSizes (unobservedRows s)) k) :=
+  C13_wrapped_transfer (.inr (.optimalSize choices)) s out h
+    (fun rows res => ∃ k, k ∈ plateSizes rows ∧ (∀ p : Name, plateSize res p = if plateSize rows p < k then 0 else k) ∧
+      (∀ t : Nat, retained (plateSizes rows) t ≤ retained (plateSizes rows) k))
+    (fun he => absurd he hne) (fun _ _ hu hnu => optimal_shape hu hnu)
+
+/-- per-sample minimum (also when it is the last stage of the ensemble) -/
+theorem C13_wrapped_min_plates (sm : Smoother) (minN : Int)
+    (hsm : sm = .nPlate minN ∨ ∃ a b pops ch, sm = .ensemble a b minN pops ch) (s out : Screen) (h : sm.wrapped s = .ok out) :
+    ∀ x ∈ unobservedRows out, minN ≤ ((distinctPlates (unobservedRows out) x.sample).length : Int) :=
+  C13_wrapped_transfer (.inr sm) s out h
+    (fun _ res => ∀ x ∈ res, minN ≤ ((distinctPlates res x.sample).length : Int))
+    (fun _ _ hx => (by cases hx))
+    (fun u nu hu hnu => by
+      rcases hsm with rfl | ⟨a, b, pops, ch, rfl⟩
+      · exact nPlate_min hu hnu
+      · exact ensemble_min hu unobserved_mask hnu)
+
+theorem C13_wrapped_merge_same_sample (sm : Smoother) (hsm : (∃ k pops, sm = .mergeMin k pops) ∨ (∃ n, sm = .mergeTopBottom n))
+    (s out : Screen) (h : sm.wrapped s = .ok out) :
+    ∃ ρ : Name → Name, unobservedRows out = renamePlates ρ (unobservedRows s) ∧
+      ∀ r1 ∈ unobservedRows s, ∀ r2 ∈ unobservedRows s, ρ r1.plate = ρ r2.plate → r1.plate = r2.plate ∨ r1.sample = r2.sample :=
+  C13_wrapped_transfer (.inr sm) s out h
+    (fun rows res => ∃ ρ : Name → Name, res = renamePlates ρ rows ∧
+      ∀ r1 ∈ rows, ∀ r2 ∈ rows, ρ r1.plate = ρ r2.plate → r1.plate = r2.plate ∨ r1.sample = r2.sample)
+    (fun _ => ⟨id, rfl, fun _ h1 => (by cases h1)⟩)
+    (fun u nu hu hnu => C13_merge_same_sample sm hsm _ _ _ u nu hu hnu)
+
+theorem C13_wrapped_mergemin_stops (k : Int) (pops : List Nat) (s out : Screen) (h : (Smoother.mergeMin k pops).wrapped s = .ok out) :
+    ∀ r1 ∈ unobservedRows out, ∀ r2 ∈ unobservedRows out, r1.sample = r2.sample → r1.plate ≠ r2.plate →
+      k < (plateSize (unobservedRows out) r1.plate + plateSize (unobservedRows out) r2.plate : Int) :=
+  C13_wrapped_transfer (.inr (.mergeMin k pops)) s out h
+    (fun _ res => ∀ r1 ∈ res, ∀ r2 ∈ res, r1.sample = r2.sample → r1.plate ≠ r2.plate →
+      k < (plateSize res r1.plate + plateSize res r2.plate : Int))
+    (fun _ _ h1 => (by cases h1)) (fun u nu hu hnu => (mergeMin_stops_rows hu hnu).1)
+
+theorem C13_wrapped_topbottom_halves (n : Int) (s out : Screen) (h : (Smoother.mergeTopBottom n).wrapped s = .ok out)
+    (σ : Name) (hσ : σ ∈ (unobservedRows s).map (·.sample)) :
+    (distinctPlates (unobservedRows out) σ).length = halve^[n.toNat] (distinctPlates (unobservedRows s) σ).length :=
+  C13_wrapped_transfer (.inr (.mergeTopBottom n)) s out h
+    (fun rows res => σ ∈ rows.map (·.sample) → (distinctPlates res σ).length = halve^[n.toNat] (distinctPlates rows σ).length)
+    (fun _ hx => (by cases hx)) (fun u nu hu hnu hx => mergeTopBottom_halves_rows hu hnu σ hx) hσ
+
 /-! ### the hypotheses are satisfiable (concrete screens of `Lemmas/PrepExamples.lean`, evaluated by `decide`) -/
 
+-- hypotheses of the `C13_wrapped_*` theorems
+example : ∃ s out, mk? exRaw = .ok s ∧ (Generator.segregating 2 [[0,3,2],[5,1,4]]).wrapped s = .ok out := ex_wrapped_segregating
+example : ∃ s out, mk? exRaw = .ok s ∧ (Generator.pairwise 1 0 [] [[2,0,4,1,3]] [[genName 3]]).wrapped s = .ok out := ex_wrapped_pairwise
+example : ∃ s out, mk? exRaw = .ok s ∧ (Smoother.fixedSize 2 [[1,4]]).wrapped s = .ok out := ex_wrapped_fixedSize
+example : ∃ s out, mk? exRaw = .ok s ∧ (Smoother.optimalSize [[4,5]]).wrapped s = .ok out := ex_wrapped_optimalSize
+example : ∃ s out, mk? exRaw = .ok s ∧ (Smoother.nPlate 2).wrapped s = .ok out := ex_wrapped_nPlate
+example : ∃ s out, mk? exRaw = .ok s ∧ (Smoother.mergeMin 3 [3,0]).wrapped s = .ok out := ex_wrapped_mergeMin
+example : ∃ s out, mk? (rawOfRows [] 2 exOne none none) = .ok s ∧ (Smoother.mergeTopBottom 2).wrapped s = .ok out := ex_wrapped_mergeTopBottom
 example : ∃ u nu, build [] 2 exU = .ok u ∧ genSegregating 2 [[0,3,2],[5,1,4]] u = .ok nu := ex_inner_segregating
 example : ∃ u nu, build [] 2 exU = .ok u ∧ genPairwise 1 0 [] [[2,0,4,1,3]] [[genName 3]] u = .ok nu := ex_inner_pairwise
 example : ∃ u nu, build [] 2 exU = .ok u ∧ fixedSize 2 [[1,4]] u = .ok nu := ex_inner_fixedSize
